@@ -101,4 +101,41 @@ example : ∃ s, liveRun demoDiamond init demoSchedule = some s ∧ Live demoDia
     rw [hs] at this; simpa using this
   exact ⟨s, hs, hl, ho, hlen, C02_plain_no_stuck_state _ _ demoDiamond_plain s hl ho⟩
 
+/-- the diamond with an artifact store that suspends once while saving node 0's value -/
+def demoDiamondCb : Program :=
+  { demoDiamond with cbYield := fun cb n => match cb, n with | .save, 0 => 1 | _, _ => 0 }
+
+theorem demoDiamondCb_plain : PlainP demoDiamondCb demoDag := by
+  apply plainP_of_check (by decide) (fun _ => rfl) (fun _ => rfl)
+  · intro n kw i k v h
+    simp only [demoDiamondCb, demoDiamond] at h
+    split at h
+    · cases h
+    · cases h; exact ⟨rfl, rfl⟩
+  · intro _ _; exact ⟨rfl, rfl⟩
+
+/-- node 0 has produced its value and stored it, its task is suspended inside `artifact_store.save`, nobody has been
+notified yet: the launcher is still blocked on `cond[2]` although node 2 *is* ready — the situation the `Settled`
+clause of the invariant is about.  By the theorem this state is not stuck (the saving task will run and notify). -/
+example : ∃ s, liveRun demoDiamondCb init
+      [.run 0 [] 0, .run 1 [0, 2, 1, 3] 0, .run 2 [] 0, .gate 0 0 1, .run 2 [] 0] = some s ∧
+    (s.res 0).isSome = true ∧ (∃ tk, s.tasks[1]? = some tk ∧ tk.st = .blocked (.cond (.node 2))) ∧
+    stuck s = false := by
+  have h : (liveRun demoDiamondCb init
+      [.run 0 [] 0, .run 1 [0, 2, 1, 3] 0, .run 2 [] 0, .gate 0 0 1, .run 2 [] 0]).isSome = true := by decide +kernel
+  obtain ⟨s, hs⟩ := Option.isSome_iff_exists.mp h
+  have hl := live_of_liveRun _ init s .init hs
+  have fact : ∀ (f : St → Bool), ((liveRun demoDiamondCb init
+      [.run 0 [] 0, .run 1 [0, 2, 1, 3] 0, .run 2 [] 0, .gate 0 0 1, .run 2 [] 0]).map f) = some true → f s = true := by
+    intro f hf; rw [hs] at hf; simpa using hf
+  have ho : s.outcome = none := by
+    have := fact (fun s => s.outcome.isNone) (by decide +kernel); simpa using this
+  have hres := fact (fun s => (s.res 0).isSome) (by decide +kernel)
+  have hblk := fact (fun s => match s.tasks[1]? with
+    | some tk => decide (tk.st = .blocked (.cond (.node 2))) | none => false) (by decide +kernel)
+  refine ⟨s, hs, hres, ?_, C02_plain_no_stuck_state _ _ demoDiamondCb_plain s hl ho⟩
+  cases h1 : s.tasks[1]? with
+  | none => simp [h1] at hblk
+  | some tk => exact ⟨tk, rfl, by simpa [h1] using hblk⟩
+
 end MLPE.Eng
